@@ -8,8 +8,10 @@
     bundle (whole or as fragments) handed to a CL, deleted = neither.
 
     Standing for the unchanged code (the model reproduces it):
-      C19_content_refuted   - a report asserts 'forwarded' for a bundle whose forwarding FAILED
-                              (the RX routing step records 'forward' before anything is sent);
+      C19_content_refuted   - residue of the defect fixed in cf814c0: when the fragment step takes the
+                              bundle over on a route whose CL is not attached, 'forwarded' is reported
+                              although every fragment fails to be sent (an outright failed forward is now
+                              reported as deleted only: C19_failed_forward_deleted_only);
       C19_subject_refuted   - a forwarded bundle with creation time 0 is reported under the timestamp
                               the agent wrote into it, not the one it arrived with;
       C19_emitted_if_refuted_{no_route,fragment} - requested reception reports that are never sent. *)
@@ -43,15 +45,16 @@ Theorem C19_only_if_and_content :
 Proof. exact report_sound_r. Qed.
 Print Assumptions C19_only_if_and_content.
 
-(** FULL STATEMENT (false for the unchanged code):
+(** FULL STATEMENT (false only in the corner excluded by the second guard):
       forall matches a b r, In r (reports_of evs) -> forall s, asserted r s = requested b s && occurred evs s.
-    Proved under two guards: the bundle is not a fragment routed to delivery, and a bundle routed to
-    'forward' did reach a CL. *)
+    Guards: the bundle is not a fragment routed to delivery, and the fragment step did not take the
+    bundle over on a route whose CL is not attached. *)
 Theorem C19_content_partial :
   forall (matches : N -> eid -> bool) (a : agent) (b : bundle) (r : report),
     In r (reports_of (snd (fst (recv_core matches a b)))) ->
     mem ADlv (route_actions matches a b) && is_frag b = false ->
-    (mem AFwd (route_actions matches a b) = true -> has_tx (snd (fst (recv_core matches a b))) = true) ->
+    (forall k, send_path matches a (b_dst b) (b_size b) (has_flag (b_flags b) FLAG_NO_FRAGMENT) (is_frag b) (b_fragfeas b)
+               <> SentFrags k false) ->
     forall s, asserted r s = requested b s && occurred (snd (fst (recv_core matches a b))) s.
 Proof. exact asserted_occurred_partial_r. Qed.
 Print Assumptions C19_content_partial.
@@ -62,9 +65,19 @@ Theorem C19_content_refuted :
     /\ mem ADlv (route_actions w_matches a b) && is_frag b = false
     /\ requested b AFwd = true
     /\ asserted r AFwd = true /\ occurred (w_events a b) AFwd = false
-    /\ asserted r ADel = true.
+    /\ asserted r ADel = false.
 Proof. exact asserted_occurred_refuted. Qed.
 Print Assumptions C19_content_refuted.
+
+(** Regression of cf814c0: no transmit route for the destination - the one report asserts received and
+    deleted (reason NO_ROUTE), not forwarded. *)
+Theorem C19_failed_forward_deleted_only :
+  let a := w_agent [(0, AFwd)] [w_rpt_route] in
+  let b := w_bundle 1000 1 None in
+  map (fun r => (map (asserted r) [ARecv; AFwd; ADlv; ADel], r_reason r)) (reports_of (w_events a b))
+  = [([true; false; false; true], fwd_fail_reason)].
+Proof. exact failed_forward_reported_deleted_only. Qed.
+Print Assumptions C19_failed_forward_deleted_only.
 
 (** FULL STATEMENT (false): the subject timestamp is always the one the bundle arrived with.  The guarded
     version ([b_time b <> 0]) is part of C19_only_if_and_content. *)
